@@ -61,6 +61,12 @@ Definition c20_api_reach : list reach_entry := [
     [("mp4", "decoders"); ("mp4", "decodersSR")];
   mkreach KTouch ["mp4.FtypBox.AddCompatibleBrands"; "mp4.StypBox.AddCompatibleBrands"; "mp4.MdatBox.AddSampleData"]
     []
+    [];
+  mkreach KDecodeLazy ["mp4.DecodeFile"; "mp4.WithDecodeMode"; "mp4.DecodeMdatLazily"]
+    [("bits", "ErrSliceRead"); ("bits", "ErrSliceWrite"); ("avc", "ErrCannotParseAVCExtension"); ("avc", "ErrLengthSize"); ("hevc", "ErrLengthSize"); ("av1", "ErrInvalidMarker"); ("av1", "ErrInvalidVersion"); ("av1", "ErrNonZeroReservedBits"); ("mp4", "decoders"); ("mp4", "decodersSR"); ("mp4", "sgeDecoders"); ("mp4", "uuidPiffSenc"); ("mp4", "uuidTfrf"); ("mp4", "uuidTfxd")]
+    [];
+  mkreach KReadData ["mp4.MdatBox.ReadData"; "mp4.MdatBox.CopyData"; "mp4.MdatBox.PayloadAbsoluteOffset"; "mp4.MdatBox.IsLazy"]
+    [("bits", "ErrSliceWrite")]
     []
 ].
 
